@@ -365,7 +365,19 @@ func (e *env) malformedEnc(n int) {
 			signer = nil
 			tag = "~enc/nil-signer"
 		}
-		e.encOp(h, body, signer, ad, tag)
+		msg := e.encOp(h, body, signer, ad, tag)
+		// a request with an algorithm inconsistent with the key must not yield a message that verifies
+		if msg != nil && signer != nil && (tag == "enc/unknown-algo" || tag == "enc/other-key-type") {
+			if _, err := signed.Verify(msg, signer.Public(), ad...); err == nil {
+				e.Violate("C38/accepted-inconsistent-algo", "message with an algorithm inconsistent with the key was signed and verifies",
+					map[string]any{"algo": h.algo, "key_kind": kindOf(signer.Public()), "hb": vlib.Hex(msg.HeaderAndBody),
+						"sig": vlib.Hex(msg.Signature), "ad": adWords(ad)})
+			}
+		}
+		if msg != nil && tag == "enc/adlen-mismatch" {
+			e.Violate("C38/signed-adlen-mismatch", "Sign accepted a header whose associated data length differs from the data",
+				map[string]any{"ad_len": h.adLen, "ad": adWords(ad), "hb": vlib.Hex(msg.HeaderAndBody)})
+		}
 	}
 }
 
